@@ -5,7 +5,8 @@ import UralModel.Model.Facebook
 `reparsable r` is the *decidable hypothesis* of `Ural.Props.C19.Facebook.reparse_url_partial`:
 the records (returned by the parser or not) for which "`parse_facebook_url(r.url) == r`" is
 proved; `charsOk r` is the character-level hypothesis of `reparse_of_parse_partial` (records
-the parser returned).  It lives next to the model
+the parser returned: only the characters that fail by design); `pathFieldsClean r` is the
+conclusion of `parsed_path_fields_clean`.  All this lives next to the model
 (no theorem here) because the driver evaluates it on every record of the correspondence
 stream, so that the check can tell the inputs covered by the theorem from those that are only
 explored (`harness/props/c19/facebook.py`, op `fb_hyp`).
@@ -17,11 +18,18 @@ open Ural.Py Ural
 def isDotSeg (s : Str) : Bool := s = ['.'] || s = ['.', '.']
 
 /-- the characters of a path-borne field for which the round trip is proved: anything but the
-url delimiters `/ ? #`, the params delimiter `;` and white space -/
-def segChar (c : Char) : Bool := c ≠ '/' && c ≠ '?' && c ≠ '#' && c ≠ ';' && !isSpace c
+url delimiters `/ ? #`, the params delimiter `;` and TAB CR LF (which `urlsplit` deletes) -/
+def segChar (c : Char) : Bool := c ≠ '/' && c ≠ '?' && c ≠ '#' && c ≠ ';' && !isUnsafeUrlChar c
 
-/-- a path segment the round trip is proved for: not empty, made of `segChar`s, not `.`/`..` -/
-def segOk (s : Str) : Bool := !s.isEmpty && s.all segChar && !isDotSeg s
+/-- `s` starts with white space (`str.isspace`) -/
+def blankHead (s : Str) : Bool := s.head?.any isSpace
+
+/-- `s` ends with white space (`str.isspace`) -/
+def blankLast (s : Str) : Bool := s.getLast?.any isSpace
+
+/-- a path segment the round trip is proved for: not empty, made of `segChar`s, not `.`/`..`, no
+white space at either end (white space *inside* is fine) -/
+def segOk (s : Str) : Bool := !s.isEmpty && s.all segChar && !isDotSeg s && !blankHead s && !blankLast s
 
 /-- the characters of a query-borne field for which the round trip is proved: anything but
 `&` (item separator), `#`, `+` and `%` (decoded by `parse_qs`), TAB, CR, LF (deleted by
@@ -57,9 +65,11 @@ def postGroupOk (g id : Str) : Bool :=
 def groupOk (g : Str) : Bool := segOk g && noWatch g
 
 /-- `FacebookPhoto(id, parent_id=p | parent_handle=p, album_id=aid)`: the album id is not empty
-(the parser returns `None` on an empty one); it may contain `a.` — only the prefix is removed -/
+(the parser returns `None` on an empty one) and does not end with white space (it ends the
+segment `a.<album>`); it may contain `a.` — only the prefix is removed -/
 def photoPathOk (p aid id : Str) : Bool :=
-  segOk p && segOk id && !aid.isEmpty && aid.all segChar && noWatch p && noWatch id && decide (p ≠ lit "videos")
+  segOk p && segOk id && !aid.isEmpty && aid.all segChar && !blankLast aid && noWatch p && noWatch id &&
+    decide (p ≠ lit "videos")
 
 /-- `None`, or a good query value -/
 def optQvalOk (o : Option Str) : Bool :=
@@ -73,11 +83,11 @@ def photoQueryOk (id : Str) (gid aid : Option Str) : Bool := qvalOk id && optQva
 /-- the records for which the round trip is proved, shape by shape (all hypotheses are
 decidable and spelled out in `Lemmas/FacebookShapes.lean`):
 
-* a field that ends up in the *path* of the url is `segOk`: not empty, without `/ ? # ;` and
-  white space, not `.` / `..`; it must not start with `watch` (nor, for a handle, with
-  `people`, nor end with `.php`), must not be a route word that an earlier route of the parser
-  tests (`videos`, `photos`, `groups` where relevant); an album id is not empty, without
-  `/ ? # ;` and white space;
+* a field that ends up in the *path* of the url is `segOk`: not empty, without `/ ? # ;` TAB CR
+  LF, without white space at its ends, not `.` / `..`; it must not start with `watch` (nor, for
+  a handle, with `people`, nor end with `.php`), must not be a route word that an earlier route
+  of the parser tests (`videos`, `photos`, `groups` where relevant); an album id is not empty,
+  without `/ ? # ;` TAB CR LF, without white space at its end;
 * a field that ends up in the *query* is `qvalOk`: not empty, without `& # + %`, TAB, CR, LF;
 * ids and handles are told apart by `is_facebook_id`, as the parser does;
 * only the field combinations the parser produces (`Shaped`). -/
@@ -113,9 +123,11 @@ def reparsable : Parsed → Bool
         | _, _ => false)
      | some _, some _ => false)
 
-/-- the characters of a path-borne field are ordinary: no `/ ? # ;`, no white space, and the
-field is not a dot segment.  (Nothing about emptiness: the parser never returns an empty one.) -/
-def segChars (s : Str) : Bool := s.all segChar && !isDotSeg s
+/-- a path-borne field that `urljoin` rebuilds verbatim: no `;` (an empty `;params` is dropped),
+not a dot segment (resolved).  Nothing else: that the field is not empty, has no white space at
+its ends, no `/ ? #` and no TAB CR LF is *derived* for what the parser returns
+(`parsed_fields_nonempty`, `parsed_path_fields_clean`). -/
+def segChars (s : Str) : Bool := !s.contains ';' && !isDotSeg s
 
 /-- the characters of a query-borne field are ordinary: no `& # + %` TAB CR LF -/
 def qvalChars (s : Str) : Bool := s.all qvalChar
@@ -127,13 +139,14 @@ def optQvalChars (o : Option Str) : Bool :=
   | some s => qvalChars s
 
 /-- **the residual hypothesis of the round trip of what the parser returns**
-(`Ural.Props.C19.Facebook.reparse_of_parse_partial`), purely about characters: every field that
-goes to the *path* of the canonical url is made of characters other than `/ ? # ;` and white
-space and is not `.` / `..` (`urljoin` resolves dot segments, `;` starts the params that `urljoin`
-drops when empty, a blank is stripped by `pathsplit`); every field that goes to its *query* is
-made of characters other than `& # + %` TAB CR LF (`parse_qs` decodes `+ %`, splits at `&`,
-`urlsplit` deletes TAB CR LF and cuts at `#`).  Which fields go where depends on the shape of
-the record; a record with a field combination the parser never returns is outside. -/
+(`Ural.Props.C19.Facebook.reparse_of_parse_partial`): only the characters that the builders do not
+escape and that `urljoin` / `urlsplit` / `parse_qs` read as syntax — every field that goes to the
+*path* of the canonical url has no `;` (`urljoin` drops an empty `;params`) and is not `.` / `..`
+(`urljoin` resolves dot segments); every field that goes to its *query* has no `& # + %` TAB CR LF
+(`parse_qs` decodes `+ %` and splits at `&`, `urlsplit` cuts at `#` and deletes TAB CR LF — a
+query value can hold any of them, decoded from an escape).  Each really fails
+(`excluded_shapes_fail`).  Which fields go where depends on the shape of the record; a record
+with a field combination the parser never returns is outside. -/
 def charsOk : Parsed → Bool
   | .user id h => h.isNone && qvalChars id
   | .handle h => segChars h
@@ -158,12 +171,54 @@ def charsOk : Parsed → Bool
      | none, none => qvalChars id && optQvalChars gid && optQvalChars aid
      | some p, none =>
        (match gid, aid with
-        | none, some a => segChars p && segChars id && a.all segChar
+        | none, some a => segChars p && segChars id && !a.contains ';'
         | _, _ => false)
      | none, some p =>
        (match gid, aid with
-        | none, some a => segChars p && segChars id && a.all segChar
+        | none, some a => segChars p && segChars id && !a.contains ';'
         | _, _ => false)
      | some _, some _ => false)
+
+/-! ## what holds of every record the parser returns (derived, not assumed) -/
+
+/-- a character that can be in a path segment `urlsplit` + `pathsplit` return: not `/ ? #`, not
+TAB CR LF -/
+def cleanChar (c : Char) : Bool := c ≠ '/' && c ≠ '?' && c ≠ '#' && !isUnsafeUrlChar c
+
+/-- a path segment as the routes read it: made of `cleanChar`s, no white space at either end
+(the blanks around each segment are dropped before routing) -/
+def segClean (s : Str) : Bool := s.all cleanChar && !blankHead s && !blankLast s
+
+/-- the album id read from the segment `a.<album>`: the end of that segment -/
+def albumClean (a : Str) : Bool := a.all cleanChar && !blankLast a
+
+/-- **every field that goes to the path of the canonical url is a clean segment**: the
+conclusion of `Ural.Props.C19.Facebook.parsed_path_fields_clean` (the fields that go to the
+query are not constrained: a query value can hold any character, decoded from an escape; nor is
+the id of a `FacebookUser`, which the people route reads from the path but the url carries in
+its query) -/
+def pathFieldsClean : Parsed → Bool
+  | .user _ _ => true
+  | .handle h => segClean h
+  | .group id h =>
+    (match id, h with
+     | some g, none => segClean g
+     | none, some g => segClean g
+     | _, _ => true)
+  | .post id pid ph gid gh =>
+    (match pid, ph, gid, gh with
+     | none, some x, none, none => segClean x && segClean id
+     | none, none, some g, none => segClean g && segClean id
+     | none, none, none, some g => segClean g && segClean id
+     | _, _, _, _ => true)
+  | .video id pid =>
+    (match pid with
+     | none => true
+     | some p => segClean p && segClean id)
+  | .photo id gid pid ph aid =>
+    (match pid, ph, gid, aid with
+     | some p, none, none, some a => segClean p && segClean id && albumClean a
+     | none, some p, none, some a => segClean p && segClean id && albumClean a
+     | _, _, _, _ => true)
 
 end Ural.Facebook
